@@ -174,6 +174,19 @@ Theorem C01_gff_fts_roundtrip : forall xs fts, wf_basket Gff xs = true -> forall
 Proof. exact gff_fts_roundtrip_all. Qed.
 Print Assumptions C01_gff_fts_roundtrip.
 
+(* the documented reader options of the GFF reader (filt_fast, filt, default_ftype; comments only collects) do not change
+   which SEQUENCES are read from a GFF3 + ##FASTA text written by sugar, with or without feature lines *)
+Theorem C01_gff_options_irrelevant : forall o fl b, forallb pre_line_ok fl = true -> forallb wfb_fasta b = true ->
+  read_gff_opt o (CText (unlines (write_gff_lines_fts fl b))) = Ok (map (norm_fasta Gff) b)
+  /\ read_gff_opt o (CText (unlines (write_gff_lines_fts fl b))) = read_content Gff (CText (unlines (write_gff_lines_fts fl b))).
+Proof. exact gff_options_irrelevant. Qed.
+Print Assumptions C01_gff_options_irrelevant.
+
+Theorem C01_gff_fts_options : forall o fts b t, forallb wf_gft fts = true -> forallb wfb_fasta b = true ->
+  write_w_fts Gff fts b = Ok t -> read_gff_opt o t = Ok (map (norm_fasta Gff) b).
+Proof. exact gff_fts_options. Qed.
+Print Assumptions C01_gff_fts_options.
+
 (* reader side for GFF3 + ##FASTA and for Stockholm: any text of the reader domain is read into the writer domain and
    reaches the fixpoint with the first written text *)
 Theorem C01_gff_reader_fixpoint : forall t, wf_text Gff t = true ->
